@@ -211,7 +211,9 @@ pub fn run_caught<F: Fn() -> CaseResult>(f: &F) -> CaseResult {
         Ok(r) => r,
         Err(_) => {
             let m = last_panic();
-            if m.contains("harness:") || m.contains("adapter:") {
+            let loc = m.rsplit(" @ ").next().unwrap_or("");
+            let in_harness = ["checks/", "base/", "sut/", "cfgs/", "bins/"].iter().any(|p| loc.starts_with(p)) || loc.contains("/verif/");
+            if m.contains("harness:") || m.contains("adapter:") || (in_harness && !m.starts_with("toy:")) {
                 // a bug in the harness itself must never be reported as a verdict
                 return Err(Fail { fp: "MACHINERY".into(), msg: m });
             }
